@@ -487,6 +487,42 @@ def _nontrivial_rule(names, dims, counts):
     return unsorted and (k >= 3 or diff_counts or len(set(dims)) > 1)
 
 
+def _check_user_basis_product(ctx, refs, names, dims):
+    """the same product states on elemental systems of the same names and dimensions that carry a user-supplied basis
+    (the refmodel basis with elements 1 and 2 exchanged: still orthonormal, Hermitian, identity first): the product's
+    composite system has the product of THOSE bases and the product state denotes the same Kronecker product of operators."""
+    from quara.objects.elemental_system import ElementalSystem
+    from quara.objects.matrix_basis import MatrixBasis
+    from quara.objects.operators import tensor_product
+
+    def swapped(d):
+        b = [np.array(x) for x in _local_basis(d)]
+        b[1], b[2] = b[2], b[1]
+        return b
+
+    loc = [swapped(d) for d in dims]
+    es2 = [ElementalSystem(int(n), MatrixBasis([x.copy() for x in b])) for n, b in zip(names, loc)]
+    objs2 = []
+    for r, es, b in zip(refs, es2, loc):
+        v = np.real(_vec(np.array(b), r["rhos"][0]))
+        objs2.append(build.make(_csys([es]), "state", v))
+    try:
+        res = tensor_product(*objs2)
+    except Exception as e:  # the grouping oracles report crashes of the flat fold; nothing to add here
+        if _quara_frame(e.__traceback__) is None:
+            raise
+        ctx.label("user-basis:flat-fold-crash")
+        return
+    order = _sorted_order(names)
+    bref = np.array(rm.kron_bases([loc[i] for i in order]))
+    got_b = np.array(build.quara_basis_matrices(res.composite_system))
+    d = int(np.prod(dims))
+    ctx.close(got_b, bref, 1e-13, "user_basis:csys_basis_is_product_of_the_factors_bases")
+    want = _kron_sorted([r["rhos"][0] for r in refs], names)
+    ctx.close(np.asarray(res.to_density_matrix()), want, _tol(d), "user_basis:product_state_operator")
+    ctx.label("user-basis-product")
+
+
 def check_kron_order(case, ctx):
     from quara.objects.operators import tensor_product
 
@@ -521,6 +557,8 @@ def check_kron_order(case, ctx):
             continue
         n_ok += 1
         _verify(ctx, res, family, refs, es_list, names, dims, exp, f"grouping {label}")
+    if family == "state":
+        _check_user_basis_product(ctx, refs, names, dims)
     for a, b in zip(case["factors"][:-1], case["factors"][1:]):
         pairs.add(f"pair:{a['type']}x{b['type']}")
     ctx.label(*sorted(pairs))
